@@ -386,6 +386,59 @@ def conformance(n, seed=0):
     return ok, confirmed
 
 
+BOOT_FAILURES = {
+    # name: (configuration lines, environment, exit statuses the master may end with)
+    "post_worker_init-raises": (["def post_worker_init(worker):\n    raise RuntimeError('hook failed')"], {}, (3,)),
+    "post_fork-raises": (["def post_fork(server, worker):\n    raise RuntimeError('hook failed')"], {}, (3,)),
+    "application-import-fails": ([], {"VERIF_FAIL_IMPORT": "1"}, (3, 4)),
+    "application-import-fails-preload": (["preload_app = True"], {"VERIF_FAIL_IMPORT": "1"}, (1, 3, 4)),
+}
+
+
+def boot_failure_cell(cell):
+    """A worker that cannot boot, on a real master: the server must stop with a distinct status, not fork for ever."""
+    from vlib import realproc as rp
+    wc, kind = cell
+    lines, env, statuses = BOOT_FAILURES[kind]
+    s = rp.Server(worker_class=wc, workers=2, bind="unix", graceful_timeout=2, timeout=30, threads=2 if wc == "gthread" else None,
+                  conf_lines=lines, env=env)
+    try:
+        s.start(attempts=1, wait=6.0)          # returns as soon as the master has exited or listens
+        status = s.proc.poll()
+        if status is None:
+            try:
+                status = s.proc.wait(6.0)
+            except Exception:
+                status = None
+        boots = s.log_text().count("Booting worker with pid")
+        if status is None:
+            return ("boot-error:respawned-forever:real", "%s, %s worker: the master is still running after 12 s and has forked %d workers (log tail: %s)" % (
+                kind, wc, boots, s.log_text()[-160:].replace("\n", " | ")))
+        if status < 0:
+            return None        # killed by the harness while it was already going down
+        if status not in statuses:
+            return ("boot-error:exit-status:real", "%s, %s worker: the master exited with status %r, expected one of %r" % (kind, wc, status, statuses))
+        if boots > 8:
+            return ("boot-error:many-forks-before-halt:real", "%s: %d workers were forked before the master gave up" % (kind, boots))
+        return None
+    finally:
+        s.cleanup()
+
+
+def boot_failure_part():
+    cells = [(wc, kind) for wc in ("sync", "gthread", "gevent") for kind in BOOT_FAILURES]
+    res = par.pmap(boot_failure_cell, cells, jobs=12)
+    viols = []
+    for cell, v in zip(cells, res):
+        if v is None:
+            continue
+        v2 = boot_failure_cell(cell)          # a real-process anomaly counts only if it reproduces serially
+        if v2 is None or v2[0] != v[0]:
+            continue
+        viols.append(violation(v[0], v[1], {"boot_failure": list(cell)}))
+    return len(cells), viols
+
+
 def param_sets(thorough):
     P = []
     if thorough:
@@ -417,6 +470,8 @@ def run(ctx):
         viols += st["viols"]
         samples += st["samples"][:1]
         per["w%(workers)d/t%(timeout)d/%(term)s" % params + ("/other" if params.get("other") else "") + ("/pids-descending" if params.get("pids") else "")] = [st["states"], st["transitions"], st["mid_runs"]]
+    nboot, bviols = boot_failure_part()
+    viols += bviols
     nconf, mism = conformance(40 if ctx.thorough else 12, ctx.seed)
     if mism and not viols:
         # no verdict is issued from a simulation that a real master contradicts
@@ -424,6 +479,7 @@ def run(ctx):
     cov = {
         "states": tot["states"], "transitions": tot["transitions"],
         "traces_validated_against_impl": nconf,
+        "real_boot_failure_cells": nboot,
         "samples": samples[:6],
         "midflight_runs": tot["mid_runs"],
         "evaluations": tot["transitions"] * 3 + tot["mid_runs"], "distinct_nontrivial": tot["states"],
@@ -446,6 +502,9 @@ def run(ctx):
 
 
 def replay(case):
+    if "boot_failure" in case:
+        v = boot_failure_cell(tuple(case["boot_failure"]))
+        return violation(v[0], v[1], case) if v else None
     params = case["params"]
     script = deser(case["script"])
     inj = None
